@@ -271,10 +271,17 @@ func (c *CheckCtx) runSeq(scs []*Scenario) error {
 	if err != nil {
 		return err
 	}
+	t0 := time.Now()
 	runs, err := runScenarios(c.Sc, d, scs, c.Workers)
 	if err != nil {
 		return err
 	}
+	tRun := time.Since(t0)
+	defer func() {
+		if os.Getenv("VERIF_VERBOSE") != "" {
+			fmt.Printf("  timing: %d scenarios executed in %.1fs, abstraction+validation %.1fs\n", len(scs), tRun.Seconds(), time.Since(t0).Seconds()-tRun.Seconds())
+		}
+	}()
 	a := newAbsCtx(c.Sc.Root, d.GoJSON)
 	byH := map[string]*Scenario{}
 	// chunks of whole histories are validated by independent TLC processes in parallel
@@ -295,7 +302,7 @@ func (c *CheckCtx) runSeq(scs []*Scenario) error {
 		byH[r.Sc.ID] = r.Sc
 		cur.events = append(cur.events, evs...)
 		cur.n++
-		if len(cur.events) >= 1200 {
+		if len(cur.events) >= 700 {
 			chunks = append(chunks, cur)
 			cur = &chunk{}
 		}
@@ -304,13 +311,16 @@ func (c *CheckCtx) runSeq(scs []*Scenario) error {
 		chunks = append(chunks, cur)
 	}
 	verdicts := make([]*TraceVerdict, len(chunks))
-	tw := c.Workers / 2
+	tw := c.Workers * 3 / 4
 	if tw < 1 {
 		tw = 1
 	}
 	if err := parallelDo(len(chunks), tw, func(i int) error {
 		v, err := validateTrace(c.Sc, "TraceSeq", chunks[i].events)
 		verdicts[i] = v
+		if err == nil && os.Getenv("VERIF_VERBOSE") != "" {
+			fmt.Printf("  chunk %d: %d events, %d histories, TLC %.1fs\n", i, len(chunks[i].events), chunks[i].n, v.TLC.Wall)
+		}
 		return err
 	}); err != nil {
 		return err
@@ -324,8 +334,30 @@ func (c *CheckCtx) runSeq(scs []*Scenario) error {
 		for _, dr := range v.Drift {
 			c.Drifts = append(c.Drifts, fmt.Sprintf("action=%s (e.g. history %s %s)", dr.Action, dr.H, dr.Path))
 		}
+		// root of every diverging history: the records of its first diverging event. Cascades of
+		// a root that matches a listed known finding are consequences of that finding.
+		rootL := map[string]int{}
+		rootKnown := map[string]bool{}
+		for _, m := range v.Bad {
+			if l, ok := rootL[m.H]; !ok || m.L < l {
+				rootL[m.H] = m.L
+			}
+		}
 		for i := range v.Bad {
 			m := v.Bad[i]
+			if m.L == rootL[m.H] {
+				for _, id := range candidateSignatures(&m, all[m.L-1], byH[m.H]) {
+					if listedAnywhere(id) {
+						rootKnown[m.H] = true
+					}
+				}
+			}
+		}
+		for i := range v.Bad {
+			m := v.Bad[i]
+			if m.Casc && rootKnown[m.H] {
+				continue
+			}
 			ev := all[m.L-1]
 			sc := byH[m.H]
 			props := propsOfMismatch(m, ev)
@@ -373,6 +405,9 @@ func slimEvent(ev map[string]any) map[string]any {
 func describeMismatch(m Mismatch, ev map[string]any) string {
 	api, _ := ev["api"].(string)
 	t, _ := ev["t"].(string)
+	if m.Casc {
+		return fmt.Sprintf("[%s, consequence of an earlier divergence in this history] event %v(%s %s) expected=%s observed=%s entry=%s path=%s hdr=%s %s", m.Check, ev["ev"], api, t, m.Exp, m.Got, m.St, m.Path, m.Hdr, m.Info)
+	}
 	return fmt.Sprintf("[%s] event %v(%s %s) expected=%s observed=%s entry=%s path=%s hdr=%s %s", m.Check, ev["ev"], api, t, m.Exp, m.Got, m.St, m.Path, m.Hdr, m.Info)
 }
 
@@ -399,6 +434,9 @@ func propsOfMismatch(m Mismatch, ev map[string]any) []string {
 	}
 	_ = ci
 	standalone := api == "ssnap" || api == "sjson"
+	if uw, _ := ev["unwritable"].(bool); uw {
+		return []string{"C20", "C05"}
+	}
 	switch m.Check {
 	case "outcome":
 		switch {
